@@ -416,6 +416,176 @@ def _g_check(run, ELFFile):
     return ctx
 
 
+# ----------------------------------------------------------------------------- T: corpus traces
+ZERO = dict(k='', f=0, view='', cls=0, le=True, machine=0, osabi=0, raw=[], tags=[], strs=[], voc=[], cnt=0, gnu=[], sysv=[], secn=0)
+HASH_CAP = 1 << 16
+
+
+def _digits(n, w):
+    return list((n & ((1 << (8 * w)) - 1)).to_bytes(w, 'little'))
+
+
+def _strip_sht(raw, lay):
+    """A copy of the file without section header table: e_shoff = e_shnum = e_shstrndx = 0 (field positions from the
+    specification's layout tables)."""
+    buf = bytearray(raw)
+    for f in ('e_shoff', 'e_shnum', 'e_shstrndx'):
+        off, w = lay[f]
+        buf[off:off + w] = bytes(w)
+    return bytes(buf)
+
+
+def _scan_event(fid, view, d, raw, off, size, w):
+    tags, strs = [], []
+    for i, t in enumerate(d.iter_tags()):
+        e = t.entry
+        named = isinstance(e.d_tag, str)
+        tags.append({'nm': e.d_tag if named else '', 'c': [] if named else _digits(e.d_tag, w), 'v': _digits(e.d_val, w)})
+        for a in STRING_ATTR.values():
+            if hasattr(t, a):
+                strs.append({'i': i, 's': list(getattr(t, a).encode('utf-8', 'surrogatepass'))})
+    return dict(ZERO, k='scan', f=fid, view=view, raw=list(raw[off:off + size]), tags=tags, strs=strs)
+
+
+def _record(run, ctx):
+    from elftools.elf.elffile import ELFFile
+    from elftools.elf.dynamic import DynamicSection, DynamicSegment
+    eh = ctx.tables['ehdr']
+    events = [dict(ZERO, k='voc', voc=sorted(ctx.voc))]
+    where, skipped, notes = {}, [], {}
+    fid = 0
+    for d in CORPUS:
+        base = os.path.join(core.REPO, d)
+        for fn in sorted(os.listdir(base)):
+            path = os.path.join(base, fn)
+            if not os.path.isfile(path):
+                continue
+            with open(path, 'rb') as fh:
+                raw = fh.read()
+            if raw[:4] != b'\x7fELF' or len(raw) < 64:
+                continue
+            cls = {1: 32, 2: 64}.get(raw[eh['EI_CLASS']])
+            le = {1: True, 2: False}.get(raw[eh['EI_DATA']])
+            if cls is None or le is None:
+                continue
+            lay = eh['c%d' % cls]
+            w = cls // 8
+            num = lambda f: int.from_bytes(raw[lay[f][0]:lay[f][0] + lay[f][1]], 'little' if le else 'big')
+            try:
+                with core.guard(60):
+                    ef = ELFFile(io.BytesIO(raw))
+                    segs = [s for s in ef.iter_segments() if isinstance(s, DynamicSegment)]
+                    if not segs:
+                        continue
+                    evs = [dict(ZERO, k='file', f=fid + 1, cls=cls, le=le, machine=num('e_machine'), osabi=raw[eh['EI_OSABI']])]
+                    seg = segs[0]
+                    secs = [s for s in ef.iter_sections() if isinstance(s, DynamicSection)] if num('e_shoff') else []
+                    if secs:
+                        sec = secs[0]
+                        evs.append(_scan_event(fid + 1, 'section', sec, raw, sec['sh_offset'], sec['sh_size'], w))
+                    evs.append(_scan_event(fid + 1, 'segment', seg, raw, seg['p_offset'], seg['p_filesz'], w))
+                    raw2 = _strip_sht(raw, lay)
+                    ef2 = ELFFile(io.BytesIO(raw2))
+                    if ef2.num_sections() != 0:
+                        raise core.MachineryError('%s: the stripped copy still has sections' % fn)
+                    seg2 = [s for s in ef2.iter_segments() if isinstance(s, DynamicSegment)][0]
+                    evs.append(_scan_event(fid + 1, 'stripped', seg2, raw2, seg2['p_offset'], seg2['p_filesz'], w))
+                    # symbol counts: the hash sections the dynamic tags address, .dynsym's own size
+                    if seg['p_filesz']:
+                        hb = {'SHT_GNU_HASH': [], 'SHT_HASH': []}
+                        secn = -1
+                        if secs:
+                            for kind, tag in (('SHT_GNU_HASH', 'DT_GNU_HASH'), ('SHT_HASH', 'DT_HASH')):
+                                ptr, _ = seg.get_table_offset(tag)
+                                for s in ef.iter_sections(type=kind):
+                                    if ptr is not None and s['sh_addr'] == ptr and s['sh_size'] <= HASH_CAP:
+                                        hb[kind] = list(raw[s['sh_offset']:s['sh_offset'] + s['sh_size']])
+                            ptr, _ = seg.get_table_offset('DT_SYMTAB')
+                            for s in ef.iter_sections(type='SHT_DYNSYM'):
+                                if ptr is not None and s['sh_addr'] == ptr:
+                                    secn = s.num_symbols()
+                        for view, g in (('segment', seg), ('stripped', seg2)):
+                            try:
+                                cnt = g.num_symbols()
+                            except Exception as ex:
+                                cnt = -2
+                                notes[(fid + 1, view)] = 'exc:%s:%s' % (type(ex).__name__, ex)
+                            evs.append(dict(ZERO, k='cnt', f=fid + 1, view=view, cnt=cnt, gnu=hb['SHT_GNU_HASH'], sysv=hb['SHT_HASH'], secn=secn))
+                    evs.append(dict(ZERO, k='end', f=fid + 1))
+            except core.MachineryError:
+                raise
+            except Exception as ex:
+                skipped.append('%s/%s: %s: %s' % (d, fn, type(ex).__name__, str(ex)[:80]))
+                continue
+            fid += 1
+            where[fid] = '%s/%s' % (d, fn)
+            events.extend(evs)
+    return events, where, skipped, notes
+
+
+def _trace_check(run, ctx):
+    events, where, skipped, notes = _record(run, ctx)
+    if not where:
+        raise core.MachineryError('no file with PT_DYNAMIC found in the corpus under %s' % core.REPO)
+    trace = run.trace_file('dynamic', events)
+    res = run.tlc('DynamicTrace', 'DynamicTrace', env=dict(JVM, TRACE=trace), workers=1)
+    verdicts = list(run.cases(res.out))
+    if len(verdicts) != 1:
+        raise core.MachineryError('DynamicTrace wrote %d verdicts\n%s' % (len(verdicts), res.stdout[-2000:]))
+    v = verdicts[0]
+    nscan = sum(1 for e in events if e['k'] == 'scan')
+    ncnt = sum(1 for e in events if e['k'] == 'cnt')
+    npairs = 0
+    per = {}
+    for e in events:
+        if e['k'] == 'scan':
+            per[e['f']] = per.get(e['f'], 0) + 1
+    npairs = sum(n * (n - 1) // 2 for n in per.values())
+    badscan = {b[1] for b in v['bad'] if not b[2].startswith('agree') and b[2] != 'count'}
+    badcnt = {b[1] for b in v['bad'] if b[2] == 'count'}
+    badpair = {(b[1], b[3]) for b in v['bad'] if b[2].startswith('agree')}
+    if v['oks'] + len(badscan) + len(v['ill']) != nscan or v['okc'] + len(badcnt) + len(v['undet']) != ncnt \
+            or v['oka'] + len(badpair) != npairs:
+        raise core.MachineryError('trace verdict not total: scans %d ok + %d bad + %d ill-formed != %d; counts %d ok + %d bad + %d undetermined '
+                                  '!= %d; pairs %d ok + %d bad != %d' % (v['oks'], len(badscan), len(v['ill']), nscan, v['okc'], len(badcnt),
+                                                                         len(v['undet']), ncnt, v['oka'], len(badpair), npairs))
+    odd_seen = {}
+    for f, line, why, ref in sorted(v['bad']):
+        ev = events[line - 1]
+        fn = where[f]
+        case = {'where': fn, 'view': ev['view'], 'note': notes.get((f, ev['view']))}
+        if why.startswith('agree'):
+            other = events[ref - 1]
+            if os.path.basename(fn) in ODD_FIXTURES:
+                odd_seen.setdefault(os.path.basename(fn), []).append('%s: %s vs %s' % (why, other['view'], ev['view']))
+                continue
+            key = 'tags' if why == 'agree.tags' else 'strs'
+            diff = [(a, b) for a, b in zip(other[key], ev[key]) if a != b][:3]
+            run.mismatch('trace.' + why, '%s-%s' % (other['view'], ev['view']), case, {other['view']: diff and [x for x, _ in diff]},
+                         {ev['view']: diff and [y for _, y in diff], 'lengths': [len(other[key]), len(ev[key])]})
+        elif why == 'count':
+            run.mismatch('trace.num_symbols', 'corpus', dict(case, dynsym_entries=ev['secn'], gnu_hash=bool(ev['gnu']), sysv_hash=bool(ev['sysv'])),
+                         {'count the hash tables determine': ref}, ev['cnt'])
+        elif why == 'tags.count':
+            run.mismatch('trace.tags.count', ev['view'], case, {'entries up to and including DT_NULL': ref}, len(ev['tags']))
+        else:
+            ent = 2 * next(e['cls'] for e in events if e['k'] == 'file' and e['f'] == f) // 8
+            run.mismatch('trace.' + why, ev['view'], case, {'entry': ref, 'raw entry bytes': ev['raw'][ref * ent:(ref + 1) * ent]},
+                         ev['tags'][ref] if ref < len(ev['tags']) else None)
+    run.validated += v['oks'] + v['oka'] + v['okc']
+    run.extra['corpus_traces'] = {
+        'files': len(where), 'scans': nscan, 'scans_accepted': v['oks'], 'view_pairs_agreeing': v['oka'], 'counts_accepted': v['okc'],
+        'not_terminated_not_judged': sorted('%s %s' % (where[f], view) for f, view in v['ill']),
+        'tag_names_outside_registry_not_judged': v['unk'],
+        'count_not_determined_by_a_hash_table': sorted('%s %s: num_symbols()=%d, .dynsym has %d' % (where[f], view, c, n)
+                                                       for f, view, c, n in v['undet']),
+        'odd_fixtures': {k: {'reason': ODD_FIXTURES[k], 'observed': odd_seen.get(k, ['no disagreement observed'])} for k in ODD_FIXTURES},
+        'skipped': skipped}
+    for f in where:
+        run.count('T:' + where[f], nontrivial=True)
+    return len(where)
+
+
 # ----------------------------------------------------------------------------- driver
 def check(run):
     from elftools.elf.elffile import ELFFile
@@ -432,6 +602,7 @@ def check(run):
                         'strings that are not UTF-8 have no representation fixed by the property: only "a string in every view, the same '
                         'in all views" is asserted for them',
                         'relocation tables named by dynamic tags are C08\'s (Reloc.tla mode dyn); here only "no tags -> no tables"']
-    _g_check(run, ELFFile)
+    ctx = _g_check(run, ELFFile)
+    _trace_check(run, ctx)
     if not run.samples:
         run.samples.append({'note': 'no sample'})
